@@ -197,6 +197,16 @@ var c12Keys = func() []c12Key {
 	return ks
 }()
 
+// c12NoPoint: 32 bytes of lower-case hex that schnorr.ParsePubKey refuses.
+var c12NoPoint = func() string {
+	for i := 0; ; i++ {
+		h := sha256.Sum256([]byte("c12-nopoint-" + strconv.Itoa(i)))
+		if _, err := schnorr.ParsePubKey(h[:]); err != nil {
+			return hex.EncodeToString(h[:])
+		}
+	}
+}()
+
 // c12Sign fills PK, ID and Sig of e (BIP-340 over SHA-256 of the harness's own serialisation).
 func c12Sign(k c12Key, e *common.JEvent) {
 	e.PK = k.pk
@@ -1032,7 +1042,13 @@ func (g *c12Gen) rejectFrame(i int) c12Built {
 		return g.forged(i)
 	default: // Verify cannot even decode: signature bytes that are not a BIP-340 signature
 		e := g.event(i, 1)
-		e.Sig = strings.Repeat("f", 128)
+		if r.Bool() {
+			e.Sig = strings.Repeat("f", 128)
+		} else { // a well-formed pubkey that is not the x coordinate of a curve point; the id matches
+			e.PK = c12NoPoint
+			h := sha256.Sum256(c12Canonical(e))
+			e.ID = hex.EncodeToString(h[:])
+		}
 		return g.eventMsg("verify_err", "EVENT", e, true, "bad")
 	}
 }
